@@ -145,7 +145,7 @@ PROPS = {
         "assumptions": BOARD_ASSUME,
         "jobs": [
             chess_model("model-text", ["CanonRoundTrip", "ParseModelRoundTrip"], [], MCQ, MCT),
-            board_job("text", ["text"], ["C07"], {"histories": 600, "subtrees": 220, "transpositions": 100}, {"histories": 50000, "subtrees": 400, "deep": 20, "transpositions": 3000}, sample_kinds=["text", "pair"]),
+            board_job("text", ["text"], ["C07"], {"histories": 600, "subtrees": 220, "transpositions": 100}, {"histories": 200000, "subtrees": 400, "deep": 20, "transpositions": 10000}, sample_kinds=["text", "pair"]),
         ],
         "report": ["C07", "C03"],
     },
@@ -183,7 +183,7 @@ PROPS = {
         "assumptions": BOARD_ASSUME,
         "jobs": [
             chess_model("model-null", ["NullEnabledOK", "DerivedOK", "HashPure"], ["NullOK"], MCQ, MCT),
-            board_job("null", ["rebuild"], ["C14", "C03", "C10"], {"histories": 900, "subtrees": 220, "deep": 2}, {"histories": 60000, "subtrees": 400, "deep": 40}, sample_kinds=["null", "rebuild"]),
+            board_job("null", ["rebuild"], ["C14", "C03", "C10"], {"histories": 900, "subtrees": 220, "deep": 2}, {"histories": 250000, "subtrees": 400, "deep": 40}, sample_kinds=["null", "rebuild"]),
         ],
         "report": ["C14"],
     },
@@ -210,7 +210,7 @@ PROPS = {
         "assumptions": BOARD_ASSUME,
         "jobs": [
             chess_model("model-san", ["SanCanonical", "SanImplOK"], [], dict(MCQ, max_roots=30), dict(MCT, depth=1)),
-            board_job("san", ["san", "sanread"], ["C20"], {"histories": 120, "subtrees": 30}, {"histories": 6000, "subtrees": 400, "deep": 5}, sample_kinds=["san", "sanread"]),
+            board_job("san", ["san", "sanread"], ["C20"], {"histories": 120, "subtrees": 30}, {"histories": 30000, "subtrees": 400, "deep": 5}, sample_kinds=["san", "sanread"]),
         ],
     },
     "C17": {
@@ -220,7 +220,7 @@ PROPS = {
             {"type": "model", "name": "pmiter-machine", "spec": "MC_PMIter", "exhaustive": True,
              "params": {"quick": {"workers": 4, "bounds": "6 piece kinds x all 128 subsets of 7 destination squares (a1 d1 h1 b4 e5 c8 h8), every prefix of the iteration"},
                         "thorough": {"workers": 4, "bounds": "6 piece kinds x all 128 subsets of 7 destination squares (a1 d1 h1 b4 e5 c8 h8), every prefix of the iteration"}}},
-            value_job("pm", "pm", ["C17"], {"cases": 1500, "boards": 60}, {"cases": 60000, "boards": 3000}, sample_kinds=["pm"]),
+            value_job("pm", "pm", ["C17"], {"cases": 1500, "boards": 60}, {"cases": 400000, "boards": 20000}, sample_kinds=["pm"]),
         ],
     },
     "C18": {
@@ -229,7 +229,7 @@ PROPS = {
         "jobs": [
             {"type": "model", "name": "carry-rippler-machine", "spec": "MC_Rippler", "exhaustive": True,
              "params": {"quick": {"workers": 4, "bounds": "all 256 masks of an 8-bit universe, every step"}, "thorough": {"workers": 4, "bounds": "all 256 masks of an 8-bit universe, every step"}}},
-            value_job("bb", "bb", ["C18"], {"cases": 4000, "subset-bits": 8}, {"cases": 150000, "subset-bits": 12}, sample_kinds=["bb_op", "bb_iter", "bb_subsets"]),
+            value_job("bb", "bb", ["C18"], {"cases": 4000, "subset-bits": 8}, {"cases": 600000, "subset-bits": 12}, sample_kinds=["bb_op", "bb_iter", "bb_subsets"]),
         ],
     },
     "C19": {
@@ -239,8 +239,8 @@ PROPS = {
             {"type": "model", "name": "model-coordinates", "spec": "MC_Coord", "exhaustive": True,
              "params": {"quick": {"workers": 12, "xmx": "6g", "bounds": "all 64 squares x 256 x 256 offset pairs; every value of every text type incl. all 20 480 legal-shape moves; all 1- and 2-letter texts over an 18-symbol alphabet"},
                         "thorough": {"workers": 16, "xmx": "6g", "bounds": "all 64 squares x 256 x 256 offset pairs; every value of every text type incl. all 20 480 legal-shape moves; all 1- and 2-letter texts over an 18-symbol alphabet"}}},
-            value_job("coord-release", "coord", ["C19"], {"move-fuzz": 3000}, {"move-fuzz": 300000, "full-offsets": 1, "all-moves": 1}, sample_kinds=["offs", "txt", "sq"]),
-            value_job("coord-overflow-checks", "coord", ["C19"], {"move-fuzz": 1000}, {"move-fuzz": 50000, "full-offsets": 1}, variant="dev", seed_offset=31, sample_kinds=["offs"]),
+            value_job("coord-release", "coord", ["C19"], {"move-fuzz": 3000}, {"move-fuzz": 1500000, "full-offsets": 1, "all-moves": 1}, sample_kinds=["offs", "txt", "sq"]),
+            value_job("coord-overflow-checks", "coord", ["C19"], {"move-fuzz": 1000}, {"move-fuzz": 300000, "full-offsets": 1}, variant="dev", seed_offset=31, sample_kinds=["offs"]),
         ],
     },
     "C05": {
@@ -249,7 +249,7 @@ PROPS = {
         "jobs": [
             {"type": "model", "name": "model-geometry", "spec": "MC_Geometry", "exhaustive": True,
              "params": {"quick": {"workers": 12, "xmx": "6g", "geom_mc": {"rook": 16}}, "thorough": {"workers": 16, "xmx": "8g", "geom_mc": {"rook": 64}}}},
-            value_job("geom-magic", "geom", ["C05"], {"rook-squares": 12, "random-occ": 3000}, {"rook-squares": 64, "random-occ": 200000}, sample_kinds=["sl", "leap", "pq"]),
+            value_job("geom-magic", "geom", ["C05"], {"rook-squares": 12, "random-occ": 3000}, {"rook-squares": 64, "random-occ": 1000000}, sample_kinds=["sl", "leap", "pq"]),
             value_job("geom-pext", "geom", ["C05"], {"rook-squares": 6, "bishop-squares": 32, "random-occ": 2000}, {"rook-squares": 64, "random-occ": 200000}, variant="pext", seed_offset=17, sample_kinds=["sl"]),
             value_job("geom-overflow-checks", "geom", ["C05"], {"rook-squares": 2, "bishop-squares": 8, "random-occ": 500}, {"rook-squares": 8, "bishop-squares": 64, "random-occ": 20000}, variant="dev", seed_offset=23, sample_kinds=["sl"]),
         ],
@@ -286,7 +286,7 @@ PROPS = {
         "rule": "builder states: accepted boards' builder images, 1-2 random mutations of them, targeted single-aspect corruptions, random states; each built and its record (checked against RecordOf) parsed by from_fen(true) and FromStr",
         "assumptions": VALUE_ASSUME,
         "jobs": [
-            parse_job("candidates", "cand", ["C09", "EXT"], {"bases": 300, "mutations": 10, "random": 500, "targeted-pct": 40}, {"bases": 15000, "mutations": 14, "random": 40000, "targeted-pct": 60}, sample_kinds=["build"]),
+            parse_job("candidates", "cand", ["C09", "EXT"], {"bases": 300, "mutations": 10, "random": 500, "targeted-pct": 40}, {"bases": 60000, "mutations": 14, "random": 150000, "targeted-pct": 60}, sample_kinds=["build"]),
         ],
         "report": ["C09"],
     },
@@ -297,11 +297,11 @@ PROPS = {
                         "keys of pawns on the first/eighth rank and absolute king keys are not observable through accepted boards and constrain no board; combinations are checked without regard to whether they are realisable differences, which is stronger than the property"],
         "jobs": [
             {"type": "trace", "name": "extract", "driver": "hashkeys", "spec": "Trace_Hash", "variant": "release", "checks": ["C11"], "shards": 1,
-             "args": {"common": {}, "quick": {"linear": 300, "linear-960": 100, "witnesses": 2}, "thorough": {"linear": 20000, "linear-960": 5000, "witnesses": 6}}, "sample_kinds": ["key", "lin"]},
+             "args": {"common": {}, "quick": {"linear": 300, "linear-960": 100, "witnesses": 2}, "thorough": {"linear": 60000, "linear-960": 15000, "witnesses": 6}}, "sample_kinds": ["key", "lin"]},
             {"type": "model", "name": "decide", "spec": "MC_HashKeys", "trace_from": "extract", "exhaustive": True,
              "params": {"quick": {"workers": 1, "xmx": "4g", "bounds": "all 633 extracted non-king keys, all 200 028 unordered pairs, all 2 x 2016 king-square pairs"},
                         "thorough": {"workers": 1, "xmx": "4g", "bounds": "all 633 extracted non-king keys, all 200 028 unordered pairs, all 2 x 2016 king-square pairs"}}},
-            board_job("moves-change-hash", [], ["C11"], {"histories": 1200, "subtrees": 220, "deep": 3}, {"histories": 80000, "subtrees": 400, "deep": 60}, sample_kinds=["play", "null"]),
+            board_job("moves-change-hash", [], ["C11"], {"histories": 1200, "subtrees": 220, "deep": 3}, {"histories": 300000, "subtrees": 400, "deep": 60}, sample_kinds=["play", "null"]),
         ],
     },
 }
